@@ -1,4 +1,5 @@
 from dataclasses import dataclass
+from io import SEEK_SET
 import numpy as np
 from typing import Callable
 from typing import List
@@ -193,6 +194,8 @@ def make_transcoder(
         )
     
     # begin
+    for data_stream in data_streams:
+        data_stream.stream.seek(0, SEEK_SET)
     buffer_sizes = get_buffer_sizes(data_streams)
 
     if len(data_streams) == 1 \
